@@ -1,1 +1,2 @@
 import KestrelProps.C01
+import KestrelProps.C18
